@@ -378,8 +378,7 @@ func redactPipelineStage(stage interface{}, redactFieldNames bool, keyPath []str
 					continue
 				case Pipeline:
 					if arr, ok := v.([]any); ok {
-						isSelectivelyRedactable := isRedactableFieldPatternInArray(arr)
-						newMap.Set(redactedKey, redactArrayValues(arr, redactFieldNames, inSearchStage, isSelectivelyRedactable, newKeyPath))
+						newMap.Set(redactedKey, redactSubPipeline(arr, redactFieldNames))
 					} else if vMap, ok := v.(*orderedmap.OrderedMap[string, any]); ok {
 						// Redact each key in the ordered map with redactPipelineStage:
 						newPipelineMap := orderedmap.NewOrderedMap[string, any]()
@@ -473,8 +472,7 @@ func redactPipelineStage(stage interface{}, redactFieldNames bool, keyPath []str
 									continue
 								case Pipeline:
 									if arr, ok := subV.([]any); ok {
-										isSelectivelyRedactable := isRedactableFieldPatternInArray(arr)
-										newSubMap.Set(subK, redactArrayValues(arr, redactFieldNames, inSearchStage, isSelectivelyRedactable, newKeyPath))
+										newSubMap.Set(subK, redactSubPipeline(arr, redactFieldNames))
 									} else {
 										newSubMap.Set(subK, subV)
 									}
@@ -534,6 +532,22 @@ func redactPipelineStage(stage interface{}, redactFieldNames bool, keyPath []str
 		// a literal that is a direct element of an operator array, e.g. {$and: ["x", ...]}
 		return redactArrayValues([]any{stage}, redactFieldNames, inSearchStage, false, keyPath)[0]
 	}
+}
+
+// redactSubPipeline walks a nested pipeline ($lookup.pipeline, $unionWith.pipeline,
+// $merge.whenMatched) stage by stage, exactly like the command's own pipeline and the members
+// of $facet, so that stage operators (and the namespaces they name) are recognised at any depth.
+func redactSubPipeline(stages []any, redactFieldNames bool) []any {
+	redacted := make([]any, len(stages))
+	for i, stage := range stages {
+		if _, isStage := stage.(*orderedmap.OrderedMap[string, any]); isStage {
+			redacted[i] = redactPipelineStage(stage, redactFieldNames, []string{}, isInSearchStage(stage))
+		} else {
+			// not a stage document: redact it like any other array element
+			redacted[i] = redactArrayValues([]any{stage}, redactFieldNames, false, false, []string{})[0]
+		}
+	}
+	return redacted
 }
 
 // redactNamespaceArgument pseudonymises the argument of a Namespace-typed operator when
